@@ -70,6 +70,8 @@ pub struct TraceEntry {
     pub region: u32,
     pub column: u32,
     pub offset: u32,
+    /// Absolute row of the cell (start row of the region + offset).
+    pub row: u32,
 }
 
 #[derive(Default)]
@@ -80,6 +82,7 @@ struct State {
     applied: Vec<Applied>,
     tracing: bool,
     region_names: Vec<String>,
+    region_start: usize,
     trace: Vec<TraceEntry>,
 }
 
@@ -126,12 +129,13 @@ pub fn take_trace() -> (Vec<String>, Vec<TraceEntry>) {
 
 /// Hook called by the single-pass layouter when the assignment pass of a
 /// region starts. The name closure is only evaluated while tracing.
-pub(crate) fn enter_region<NR: Into<String>>(name: &impl Fn() -> NR) {
+pub(crate) fn enter_region<NR: Into<String>>(name: &impl Fn() -> NR, start_row: usize) {
     STATE.with(|s| {
         let mut s = s.borrow_mut();
         if s.tracing {
             let n: String = name().into();
             s.region_names.push(n);
+            s.region_start = start_row;
         }
     });
 }
@@ -216,10 +220,12 @@ pub(crate) fn tamper<F: Field, VR>(
         s.counter += 1;
         if s.tracing {
             let region = s.region_names.len().saturating_sub(1) as u32;
+            let row = (s.region_start + offset) as u32;
             s.trace.push(TraceEntry {
                 region,
                 column: column as u32,
                 offset: offset as u32,
+                row,
             });
         }
         s.plan.iter().find(|(i, _, _)| *i == idx).map(|(i, f, m)| (*i, f.clone(), *m))
